@@ -92,6 +92,11 @@ def enumeration():
                     for output in (False, True):
                         b = base_case(fmt, codec, fs, output, "ok")
                         out.append(dict(b, ops=[["attr", "artist", "x" + UNENC[codec]]]))
+                        # the same with an error handler passed through to open(): handlers that still refuse the character (the file decodes
+                        # strictly in the one tried encoding, so the handler plays no part in reading it)
+                        for errors in (("strict",) if codec == "utf-8" else ("strict", "surrogateescape", "surrogatepass")):
+                            for backup in (None, "ok"):
+                                out.append(dict(b, backup=backup, errors=errors, ops=[["attr", "artist", "x" + UNENC[codec]]]))
         _enum = out
     return _enum
 
@@ -131,7 +136,7 @@ N_THOROUGH = len(enumeration()) + 20000
 def impl(c):
     import simfile
     data = bytes.fromhex(c["data"])
-    sc = F.Scenario(c["fs"], "in." + c["fmt"], data)
+    sc = F.Scenario(c["fs"], c05.inname(c), data)
     try:
         out, bak = c05.names(c, sc)
         fault = None
@@ -144,6 +149,8 @@ def impl(c):
         kw = {"filesystem": fsys}
         if c["try"]:
             kw["try_encodings"] = c["try"]
+        if c.get("errors"):
+            kw["errors"] = c["errors"]              # passed through to every open() the library makes
         entry = exitobs = None
         exc = None
         body_exc = None
